@@ -914,8 +914,6 @@ def _f26(sub, recipe):
 
 
 KNOWN_FEATURES = {
-    "F26_defer_terminal_by_equality": _f26,
-    "F25_merge_moves_measurement_past_control": _f25,
     "F23_qubit_mapping_subcircuit_simple_manager": _f23,
     "F22_phxz_symbolized_symbols_in_subcircuit": _f22,
     "F21_phxz_symbolized_shared_symbol": _f21,
